@@ -243,7 +243,7 @@ type c11Case struct {
 	MemCap   int    `json:"memcap,omitempty"`
 	Prefill  uint64 `json:"prefill"`
 	From     uint64 `json:"from"`
-	Schedule string `json:"schedule"` // quiet | append-during-scan | append-at-handover | append-both | two-streams | replace-same-addr
+	Schedule string `json:"schedule"` // quiet | append-during-scan | append-at-handover | append-both | two-streams | replace-same-addr | stall-then-resume-live
 	GateAt   int    `json:"gate_at"`
 	DuringN  int    `json:"appended_while_parked"`
 	AfterN   int    `json:"appended_after"`
@@ -252,7 +252,7 @@ type c11Case struct {
 func c11Gen(idx int) c11Case {
 	rng := vfNewRng(vfCaseSeed(vfSeed(), "C11", idx))
 	c := c11Case{Index: idx, Backend: []string{"bolt-trimmed", "bolt-untrimmed", "memdb"}[idx%3], Chained: rng.Bool(),
-		Schedule: []string{"quiet", "append-during-scan", "append-at-handover", "append-both", "two-streams", "append-during-scan", "append-at-handover", "replace-same-addr"}[(idx/3)%8]}
+		Schedule: []string{"quiet", "append-during-scan", "append-at-handover", "append-both", "two-streams", "append-during-scan", "append-at-handover", "replace-same-addr", "stall-then-resume-live"}[(idx/3)%9]}
 	switch c.Backend {
 	case "memdb":
 		c.MemCap = []int{100, 100, 2000}[rng.Intn(3)]
@@ -307,6 +307,15 @@ func c11Check(run *vfRun, c c11Case, st *vfsStack, cons *vfsConsumer, label stri
 		if i == 0 && c.From != 0 && r != c.From {
 			run.Violation(fmt.Sprintf("C11/first-round-not-requested-round/%s/%s", sched, be), fmt.Sprintf("stream from %d starts with %d", c.From, r), info)
 			ok = false
+		}
+		if i > 0 && r == got[i-1] && atomic.LoadInt64(&cons.preReg) > 0 {
+			// the same hand-over window seen from its other side: a round committed to the base store before the
+			// scan's view was taken, whose callback dispatch (callbackStore.Put, after the store write) ran after
+			// the stream's AddCallback, is delivered by the scan and again by the callback
+			run.Violation(fmt.Sprintf("C11/round-appended-during-catchup-delivered-twice/%s", be),
+				fmt.Sprintf("stream from %d delivered round %d twice: …%v; %d append(s) started before the live callback was registered (schedule %s)", c.From, r, tail(got[:i+1], 8), cons.preReg, sched), info)
+			ok = false
+			break
 		}
 		if i > 0 && r <= got[i-1] {
 			run.Violation(fmt.Sprintf("C11/repeated-or-reordered/%s/%s", sched, be), fmt.Sprintf("delivered %v", tail(got, 12)), info)
@@ -454,6 +463,47 @@ func c11Run(run *vfRun, c c11Case) {
 	gateAt := 0
 	if c.Schedule == "append-during-scan" || c.Schedule == "append-both" {
 		gateAt = c.GateAt
+	}
+	if c.Schedule == "stall-then-resume-live" {
+		// a consumer that stops reading at its first LIVE beacon while a burst larger than the callback queue is
+		// stored, then resumes: nothing may be lost or reordered
+		if c.From == 0 || c.From > c.Prefill {
+			c.From = c.Prefill
+		}
+		cons := vfsNewConsumer(c.From, int(c.Prefill-c.From)+2)
+		defer cons.cancel()
+		cons.start(st)
+		if !waitRegistered(st, cons) {
+			run.Inconclusive("live callback never registered")
+			return
+		}
+		burst := CallbackWorkerQueue + 30 + int(c.Index%40)
+		ch := appendN(st, burst, cons)
+		select {
+		case <-cons.atGate:
+		case <-time.After(3 * time.Second):
+			run.Inconclusive("consumer never reached its first live Send")
+			return
+		}
+		// let the writer run into the backlog (it blocks on the full queue in the unchanged code: C12's subject)
+		err, done := waitErr(ch, 400*time.Millisecond)
+		close(cons.gate)
+		if !done {
+			err, done = waitErr(ch, 15*time.Second)
+		} else {
+			run.Count("bursts_completed_while_consumer_stalled", 1)
+		}
+		if !done || err != nil {
+			run.Inconclusive(fmt.Sprintf("burst did not complete after the consumer resumed: %v", err))
+			return
+		}
+		cons.quiesce()
+		run.Count("streams", 1)
+		run.Count("beacons_delivered", int64(len(cons.rounds())))
+		c11Check(run, c, st, cons, "stalled-then-resumed", true)
+		run.Eval(fmt.Sprintf("%s/%v/%d/%d/%s/%d", c.Backend, c.Chained, c.Prefill, c.From, c.Schedule, burst))
+		run.Seen("schedules", fmt.Sprintf("%s/%s", c.Schedule, c.Backend))
+		return
 	}
 	cons := vfsNewConsumer(c.From, gateAt)
 	defer cons.cancel()
